@@ -249,6 +249,10 @@ class SqlAnalysis:
                 continue
             if k == "Call":
                 for f in self.H.table:
+                    if n.call_in is not None and f not in n.call_in:
+                        continue
+                    if f in n.call_out:
+                        continue
                     out.append((k, None, f))
                 continue
             df = self.kf.kinds.discr_field(k)
